@@ -68,7 +68,7 @@ def run_rule_cases(variant, groups, wd, name, flags=0, extra_lines_before=(), ha
             strs = {}
             for s in ev.get("strings", []):       # the pieces of a chained string share its identifier
                 strs.setdefault(s["id"], [])
-                strs[s["id"]] = sorted(strs[s["id"]] + s["m"])
+                strs[s["id"]] = strs[s["id"]] + s["m"]      # in the order of the scanner's own list (only the head of a chain has matches)
             cur["scans"][-1][ev["rule"]] = {"verdict": ev["msg"] == "match", "strings": strs}
         elif e == "ScanRet":
             cur["rets"].append(ev["ret"])
